@@ -289,7 +289,7 @@ def format_files(files, fmt="humanized", use_colors=False):
 # --------------------------------------------------------------------------
 # the command itself, in process
 
-def run_cli(argv, cwd=None):
+def run_cli(argv, cwd=None, fuel=None):
     """Call norminette.__main__.main() with patched argv/streams.
 
     Returns dict(code, stdout, stderr, exc).  `code` is the SystemExit code
@@ -305,6 +305,9 @@ def run_cli(argv, cwd=None):
         if cwd:
             os.chdir(cwd)
         sys.argv = ["norminette"] + list(argv)
+        if fuel is not None:
+            install_fuel()
+            _fuel.left = fuel
         with contextlib.redirect_stdout(out), contextlib.redirect_stderr(err):
             try:
                 nm.main()
@@ -315,6 +318,7 @@ def run_cli(argv, cwd=None):
     finally:
         sys.argv = old_argv
         os.chdir(old_cwd)
+        _fuel.left = None
     return {"code": code, "stdout": out.getvalue(), "stderr": err.getvalue(), "exc": exc}
 
 
